@@ -60,6 +60,45 @@ check('C02',
       DOCRUN_NOTE, 'TLA+ run-loop spec vs declarative reference (TLC exhaustive), exhaustive replay of TLC terminal states into DocTest.run',
       'DESIGN.md section 5 (C02)', 'docrun')
 
+check('C03',
+      'DocRun.tla models the except ladder of DocTest.run and check_exception (want consulted only when the part has one; non-traceback want '
+      're-raises; final line compared under ELLIPSIS / IGNORE_EXCEPTION_DETAIL; buffer untouched; loop continues). TLC enumerates every '
+      'program of <=3 parts over 50 part kinds (raising bodies x 8 want forms x inline/block flag directives, traceback wants on non-raising '
+      'code) against the declarative RefPartOutcome/ExcAccepted; every terminal state is run by the real DocTest.run with exception class, '
+      'message and call depth rotating; a failure must carry exactly the raised class and message and statements after an expected exception must run.',
+      DOCRUN_NOTE, 'TLA+ run-loop spec vs declarative reference (TLC exhaustive), exhaustive replay of TLC terminal states into DocTest.run',
+      'DESIGN.md section 5 (C03)', 'docrun')
+
+check('C04',
+      'DocRun.tla models RuntimeState.update with the persistent dictionary and the per-part overlay (copy-on-write for REQUIRES) and, '
+      'independently, the declarative fold of block directives (FoldBlock/RefStateAt). TLC enumerates every event sequence of <=3 (quick) / <=4 '
+      '(thorough) parts over 36 part kinds x 3 default-option settings and checks SkippedIsRef, PersistentIsFold, OverlayEmptyAtChoose, '
+      'OutcomeIsRef; every terminal state is rendered (statement shapes one-line / bracketed / compound / decorated rotate; conditions are env:, '
+      'module: and argv requirements the harness controls) and run by the real DocTest.run: executed statements, skipped parts, verdict, logged '
+      'stdout and the final persistent RuntimeState must equal the prediction.',
+      DOCRUN_NOTE, 'TLA+ run-loop spec vs declarative fold (TLC exhaustive), exhaustive replay of TLC terminal states into DocTest.run',
+      'DESIGN.md section 5 (C04)', 'docrun')
+
+check('C09',
+      'DocRun.tla models every exit of the per-part try/except ladder (directive error, import failure, compile error, exception, helper '
+      'exception, got/want, raising repr, ExitTestException). TLC enumerates every program of <=3 (quick) / <=4 (thorough) parts over 24 part '
+      'kinds x import ok/failing and checks ReturnNeverRaises and OutcomeIsRef; every terminal state is run by the real DocTest.run(on_error='
+      'return) with verbosity rotating 0..3, repr_failure() must render and name the exception type and the failing line, failed_lineno() must '
+      'be the raising statement / first want line; every failing <=2(3)-part program is embedded between two good doctests in a module run by '
+      'runner.doctest_module, which must return with n_total=3, the neighbours executed and passed, failed[] naming exactly the bad one.',
+      DOCRUN_NOTE, 'TLA+ run-loop spec (TLC exhaustive), exhaustive replay of TLC terminal states into DocTest.run and runner.doctest_module',
+      'DESIGN.md section 5 (C09)', 'docrun')
+
+check('C12',
+      'DocRun.tla carries the capture state of sys.stdout through every exit of the run (normal, recorded failure, on_error=raise, '
+      'ExitTestException, pytest Skipped, SystemExit, KeyboardInterrupt, import failure); TLC checks StdoutRestored over every program of '
+      '<=3 (quick) / <=4 (thorough) parts over 14 part kinds (printing, replacing sys.stdout, changing warning filters, awaiting) x on_error x '
+      'mode x import ok/failing. Every terminal state is run by the real DocTest.run and sys.stdout, sys.stderr, sys.path, warnings.filters, '
+      'warnings.showwarning are compared with their values at entry and no event loop may be left running, at normal and exceptional exits.',
+      DOCRUN_NOTE + ' Import by path outside a run (import_module_from_path) is covered by the C17 check.',
+      'TLA+ run-loop spec (TLC exhaustive), exhaustive replay of TLC terminal states into DocTest.run with before/after snapshots of process globals',
+      'DESIGN.md section 5 (C12)', 'docrun')
+
 NOT_YET = ['C01', 'C02', 'C03', 'C04', 'C05', 'C07', 'C08', 'C09', 'C10', 'C11', 'C12', 'C13', 'C14', 'C15', 'C16',
            'C17', 'C18', 'C19', 'C20']
 
